@@ -34,7 +34,15 @@ def bind_repo():
     if not f.startswith(REPO + os.sep):
         raise HarnessError("btc_hd_wallet imported from %s, not from %s" % (f, REPO))
     import btc_hd_wallet.keys as keys
-    return "ecdsa" if hasattr(keys, "ecdsa") else "libsecp256k1"
+    backend = "ecdsa" if hasattr(keys, "ecdsa") else "libsecp256k1"
+    if backend == "ecdsa":
+        # warm THIRD-PARTY lazy state (ecdsa's precomputed generator multiples) once in the parent, so that forked
+        # children do not pay for it; no code of the package under test is executed here
+        import ecdsa
+        sk = ecdsa.SigningKey.from_string(b"\x01" * 31 + b"\x02", curve=ecdsa.curves.SECP256k1)
+        vk = sk.get_verifying_key()
+        ecdsa.VerifyingKey.from_string(vk.to_string("compressed"), curve=ecdsa.curves.SECP256k1)
+    return backend
 
 
 # --------------------------------------------------------------------------------------- helpers
@@ -176,6 +184,7 @@ class Ctx:
 
     def product(self, layer, cases, execute, chunk=None, parallel=True, nsamples=2):
         """Run every case of an (already fully enumerated) list through `execute`."""
+        t_layer = time.time()
         cases = list(cases)
         seen, uniq = set(), []
         for c in cases:
@@ -214,6 +223,7 @@ class Ctx:
         L["evaluations"] += agg["n"]
         L["nontrivial"] += agg["nt"]
         L["duplicates_dropped"] += dup
+        L["wall_s"] = round(L.get("wall_s", 0) + time.time() - t_layer, 2)
         for k, c in agg["o"].items():
             L["outcomes"][k] = L["outcomes"].get(k, 0) + c
         for v in agg["v"]:
